@@ -477,7 +477,10 @@ func TestRegRoundTrip(t *testing.T) {
 			for pi, p := range positions {
 				for _, u := range unknownTypes(m, nVar) {
 					for _, ic := range []bool{false, true} {
-						mut := append(append(append([]byte{}, wire[:p]...), append(tlvHdr(u, 2), 0xAA, 0xBB)...), wire[p:]...)
+						// the inserted element's value is 2, 0 or 3 bytes long (varying with value and position): a parser that loses
+						// its place reads the value bytes as further elements, which succeeds or fails depending on them
+						uval := [][]byte{{0xAA, 0xBB}, {}, {0xAA, 0xBB, 0xCC}}[(pi+k)%3]
+						mut := append(append(append([]byte{}, wire[:p]...), append(tlvHdr(u, uint64(len(uval))), uval...)...), wire[p:]...)
 						prevT, nextT := -1, -1
 						if pi > 0 {
 							prevT = int(spans[pi-1].typ)
